@@ -40,12 +40,29 @@ def oracle_race(case, impl):
     return None
 
 
+def oracle_lmrace(case, impl):
+    """a cached reply served after the proxy has been told of a later configuration change is one no sequential order of
+    the same responses produces"""
+    import re
+    m = re.match(r"stale=(\d+)/(\d+)$", impl)
+    if not m:
+        return "lmrace did not complete: " + impl[:120]
+    if int(m.group(1)) > 0:
+        k = case.split(" ")[1]
+        return ("%s of %s iterations: %s responses of one profile handled together, one announcing a configuration change LATER than a "
+                "cached entry, the others older stamps; afterwards the entry was still served from the cache - an older "
+                "X-Conf-Last-Modified overwrote the newer one; every sequential order records the newest" % (m.group(1), m.group(2), k))
+    return None
+
+
 SPEC = dict(
     lean_module="NV.Props.C15",
     areas=[dict(name="race", n_quick=1, n_thorough=1, race=True, oracle=oracle_race, timeout=900),
            # per-query data handed from the UDP receive loop to the handlers (local address): clients on several local addresses
            # in flight together must each be resolved and answered with their own
            dict(name="localaddr", n_quick=25, n_thorough=300, shards_thorough=2, oracle=_oracle_localaddr, timeout=600),
+           # concurrent responses announcing different configuration-change times: the newest must be the one recorded
+           dict(name="lmrace", n_quick=3, n_thorough=40, shards_thorough=2, oracle=oracle_lmrace, timeout=600),
            dict(name="slowrefresh", n_quick=9, n_thorough=60, oracle=oracle_slowrefresh, timeout=300)],
     level_text="Lock discipline by proof over regenerated facts: every access to a field of a mutex-owning struct in discovery, "
                "resolver/endpoint, resolver, arp, ndp is re-extracted from the source with the lock mode held (CFG dataflow, callees "
